@@ -72,6 +72,9 @@ def _apply(mut, root):
                     text = fh.read()
             except OSError:
                 return None
+        if mut.get("every") and text.count(old) >= 1:
+            overlay[rel] = text.replace(old, new)       # the same edit at every occurrence (a change made to all sibling kernels)
+            continue
         if text.count(old) != 1:
             return None
         overlay[rel] = text.replace(old, new)
